@@ -881,6 +881,7 @@ func (c *Conn) handleReturn(ctx context.Context, ret rpccp.Return, releaseRet ca
 		q.p.Reject(pr.err)
 		q.bootstrapPromise.Fulfill(q.p.Answer().Client())
 		q.p.ReleaseClients()
+		clearCapTable(ret.Message())
 		releaseRet()
 		c.mu.Lock()
 	case q.bootstrapPromise == nil && pr.err != nil:
@@ -889,6 +890,7 @@ func (c *Conn) handleReturn(ctx context.Context, ret rpccp.Return, releaseRet ca
 		q.release = func() {}
 		c.mu.Unlock()
 		q.p.Reject(pr.err)
+		clearCapTable(ret.Message())
 		releaseRet()
 		c.mu.Lock()
 	default:
@@ -1147,7 +1149,11 @@ func (c *Conn) recvPayload(payload rpccp.Payload) (_ capnp.Ptr, locals uintSet, 
 		var err error
 		mtab[i], local, err = c.recvCap(ptab.At(i))
 		if err != nil {
-			releaseList(mtab[:i]).release()
+			// The clients created so far cannot be released here: the
+			// caller holds c.mu (and possibly the sender lock), and
+			// releasing an import calls back into the Conn.  Leave them
+			// in the message's table for the caller's clearCapTable.
+			payload.Message().CapTable = mtab[:i]
 			return capnp.Ptr{}, nil, annotate(err).errorf("read payload: capability %d", i)
 		}
 		if local {
